@@ -161,8 +161,10 @@ def mk_fits(rng, kind=None, pointing=None, scale=None, rot=None, crpix=None, sha
             return fitswcs.DistortionLookupTable(t.astype(np.float32), (1.0, 1.0), (1.0, 1.0),
                                                  ((nx - 1) / 8.0, (ny - 1) / 8.0))
         # which tables exist varies: CPDIS, CPDIS and DET2IM, DET2IM only (astropy cannot write a header with a CPDIS
-        # table on one axis only, so that layout is not generated)
-        layout = rng.choice(['cpdis', 'cpdis', 'cpdis+det2im', 'cpdis+det2im1', 'det2im', 'det2im', 'det2im1'])
+        # table on one axis only, and astropy's all_world2pix does not invert a DET2IM table that
+        # exists on one axis only when there is no other distortion (round trip off by the table value): those two
+        # layouts are not generated)
+        layout = rng.choice(['cpdis', 'cpdis', 'cpdis+det2im', 'cpdis+det2im1', 'det2im', 'det2im'])
         if layout.startswith('cpdis'):
             w.cpdis1 = table(rng.uniform(-0.6, 0.6))
             if layout != 'cpdis1':
